@@ -8,7 +8,7 @@ Open Scope Z_scope.
 (* one flatten experiment: the listing before, after flatten(), whether a second flatten() reported the same, how many
    sub-circuits remained; f_error = the implementation raised RecursionError *)
 Record fexp := { f_before : list oentry; f_after : obs; f_again : bool; f_ncomps : Z; f_error : bool }.
-Record case := {
+Record ccase := {
   f_prog : list cmd;
   f_env : denv;
   f_plain : option fexp;       (* build; flatten *)
@@ -26,7 +26,7 @@ Definition fexp_agree (m : option obs) (e : option fexp) : bool :=
                    | None => true       (* outside the model (see Core.Model.flatten); judged by spec_ok alone *)
                    end
   end.
-Definition agree (c : case) : bool :=
+Definition agree_c (c : ccase) : bool :=
   let env := f_env c in
   let ns := run_prog env (f_prog c) in
   fexp_agree (model_flat env ns) (f_plain c) && fexp_agree (model_flat env (apply_modifiers env 1 ns)) (f_unrolled c).
@@ -48,4 +48,11 @@ Definition fexp_ok (e : option fexp) : bool :=
               && same_multiset (map key_of_entry (f_before x)) (map key_of_entry (o_ops (f_after x)))
               && (f_ncomps x =? 0) && f_again x
   end.
-Definition spec_ok (c : case) : bool := fexp_ok (f_plain c) && fexp_ok (f_unrolled c).
+Definition spec_c (c : ccase) : bool := fexp_ok (f_plain c) && fexp_ok (f_unrolled c).
+
+(* a case is a generated build program or a library-built circuit; for the latter the property demands more: listing order,
+   schedule, acquisition indices and exported Stim program identical before and after flattening (Lib.Run.lib_flat_ok) *)
+From QCE Require Import Lib.Run.
+Inductive case := KCore (c : ccase) | KLib (l : lcase).
+Definition agree (c : case) : bool := match c with KCore x => agree_c x | KLib l => agree_lib l end.
+Definition spec_ok (c : case) : bool := match c with KCore x => spec_c x | KLib l => lib_flat_ok l end.
